@@ -225,7 +225,7 @@ MutateHeap(h, edit) ==
 
 PoolIdx == DOMAIN pool
 HeapIdx == DOMAIN heap
-SListShapes == {<<i>> : i \in PoolIdx} \cup {<<i, 0>> : i \in PoolIdx} \cup {<<i, j>> : i, j \in PoolIdx}
+SListShapes == {<<>>} \cup {<<i>> : i \in PoolIdx} \cup {<<i, 0>> : i \in PoolIdx} \cup {<<i, j>> : i, j \in PoolIdx}
 SDictShapes == {<<[key |-> KeyA, ref |-> -1, opt |-> TRUE]>>,          \* needs nothing from the pool
                  <<[key |-> KeyA, ref |-> -1, opt |-> TRUE], [key |-> VEllipsis, ref |-> 0, opt |-> FALSE]>>}
                \cup {<<[key |-> KeyA, ref |-> i, opt |-> FALSE]>> : i \in PoolIdx}
